@@ -1,6 +1,10 @@
 package vsched
 
 import (
+	"net"
+
+	redigo "github.com/gomodule/redigo/redis"
+
 	"cmp"
 	"slices"
 )
@@ -14,4 +18,17 @@ func SortedKeys[M ~map[K]V, K cmp.Ordered, V any](m M) []K {
 	}
 	slices.Sort(keys)
 	return keys
+}
+
+// RedisDialers maps a redis address to a function that opens an in-scheduler connection
+// to a RESP server run by the harness.  The overlay rewrites gmqtt's redigo.Dial calls to
+// RedisDial, so that every redis command becomes a pair of scheduling points (the caller
+// blocks on the reply while other threads run), like the network round trip it stands for.
+var RedisDialers = map[string]func() net.Conn{}
+
+func RedisDial(network, address string, options ...redigo.DialOption) (redigo.Conn, error) {
+	if f := RedisDialers[address]; f != nil && cur != nil {
+		return redigo.NewConn(f(), 0, 0), nil
+	}
+	return redigo.Dial(network, address, options...)
 }
